@@ -2696,3 +2696,63 @@ def nearest_crossing_table(db, chk, cfg, rule="T.nearest-crossing"):
                       "(%d of %d cells wrong)" % (b0[1], b0[0], b0[2] or "no side", (" and leaving through " + b0[3]) if b0[3] else "", b0[4], b0[5], b0[2] or "-", len(bad), n),
                       f.where, cfg=cfg)
     return n
+
+
+# ---------------------------------------------------------------------------
+# PIP.on-edge: a point on an edge is reported as such wherever a cross product decides a toggle (C04, C18)
+# ---------------------------------------------------------------------------
+
+def pip_on_edge_sites(db, chk, cfg, rule="PIP.on-edge"):
+    """In the point-in-polygon routines (every function returning PointInPolygonResult) the side of the point relative to an edge is
+    taken from CrossProductSign.  Each such call: its value is kept in a local, and the local is tested for zero with the IsOn result
+    returned, in the same block, before (or instead of) its sign deciding a toggle.  A call whose sign is used directly loses the
+    on-edge answer for that edge - the point then votes inside or outside according to the edge's direction."""
+    n = 0
+    for f in db.funcs:
+        if f.is_pattern or f.body is None or "PointInPolygonResult" not in f.sig.split("(")[0]:
+            continue
+        par = {}
+        for x in walk(f.body):
+            for c in kids(x):
+                if isinstance(c, dict):
+                    par[id(c)] = x
+        for c in walk(f.body):
+            if c.get("kind") != "CallExpr" or db.callee(c)[0] not in ("CrossProductSign", "CrossProduct"):
+                continue
+            n += 1
+            # climb to the declaration holding the value
+            p = par.get(id(c))
+            while p is not None and p.get("kind") in ("ImplicitCastExpr", "ParenExpr", "ExprWithCleanups", "MaterializeTemporaryExpr"):
+                p = par.get(id(p))
+            ok = False
+            why = "its sign is used directly"
+            if p is not None and p.get("kind") == "VarDecl":
+                vid = p.get("id")
+                # the enclosing compound statement
+                blk = par.get(id(p))
+                while blk is not None and blk.get("kind") != "CompoundStmt":
+                    blk = par.get(id(blk))
+                why = "the local `%s` is never tested for zero with IsOn returned" % p.get("name")
+                for s0 in (kids(blk) if blk else []):
+                    if not isinstance(s0, dict) or s0.get("kind") != "IfStmt":
+                        continue
+                    cond, then, els = if_parts(s0)
+                    c0 = strip(cond)
+                    zero = False
+                    if c0.get("kind") == "BinaryOperator" and c0.get("opcode") == "==":
+                        l, r = strip(kids(c0)[0]), strip(kids(c0)[1])
+                        for a, b in ((l, r), (r, l)):
+                            if a.get("kind") == "DeclRefExpr" and a.get("referencedDecl", {}).get("id") == vid and canon(b) in ("0", "0.0"):
+                                zero = True
+                    elif c0.get("kind") == "UnaryOperator" and c0.get("opcode") == "!":
+                        a = strip(kids(c0)[0])
+                        zero = a.get("kind") == "DeclRefExpr" and a.get("referencedDecl", {}).get("id") == vid
+                    if zero and any(y.get("kind") == "ReturnStmt" and kids(y) and canon(kids(y)[0]).endswith("IsOn") for y in walk(then)):
+                        ok = True
+            chk.instance(rule, {"function": f.qual, "sig": f.sig[:50], "call": where(c), "cfg": cfg}, ok=ok)
+            if not ok:
+                chk.violation(rule, f.qual, "%s|%s" % (f.sig[:30], c.get("line")), "%s: the cross product at %s decides on which side of an edge the point lies, but %s: a point exactly "
+                              "on that edge is classified inside or outside (by the edge's direction) instead of IsOn" % (f.qual, where(c), why), where(c), cfg=cfg)
+    if n < 4:
+        raise AnalysisBroken("PIP.on-edge: only %d cross-product sites in point-in-polygon routines (configuration %s)" % (n, cfg))
+    return n
